@@ -1531,6 +1531,96 @@ Proof.
   - intros pool body rt _ [].
 Qed.
 
+(* emit_const c (emit_op o st), then a 16-bit operand *)
+Lemma CG_opcm o c n st st2 st' a b pops pushes :
+  cs_wf st -> emit_const c (emit_op o st) = COk st2 -> emit16 n st2 = COk st' ->
+  operands o = [Oc; Om] -> is_ctl o = false ->
+  (forall pool v, nth_error pool (N.to_nat v) = Some c ->
+                  effect pool (mkDec o (Some v) (Some n) None None 5) = Some (pops, pushes)) ->
+  pops <= a -> b = a - pops + pushes -> (forall body rt, c <> CThunk body rt) ->
+  CG true a b st st'.
+Proof.
+  intros W H H2 Hops Hctl Heff Hp Hb Hth.
+  destruct (emit_const_spec _ _ _ (wf_emit_byte _ _ W) H) as (hi & lo & C & P & W' & Hn).
+  unfold emit_op in C, P. rewrite code_emit_byte in C. rewrite pool_emit_byte in P. rewrite <- app_assoc in C.
+  apply emit16_spec in H2 as [E2 V2]. subst st'.
+  eapply CG_ins with (ins := [op_byte o; hi; lo; (n / 256)%N; (n mod 256)%N]) (newp := [c]); try discriminate.
+  - apply wf_emit_byte, wf_emit_byte; auto.
+  - rewrite !code_emit_byte, C, <- !app_assoc. reflexivity.
+  - rewrite !pool_emit_byte. exact P.
+  - intros pool Hx.
+    eapply FR_shape with (dec := mkDec o (Some (hi * 256 + lo)%N) (Some (n / 256 * 256 + n mod 256)%N) None None 5); eauto.
+    + intros k. rewrite Hops. reflexivity.
+    + rewrite V2. apply Heff. rewrite !pool_emit_byte in Hx. eapply pool_ext_nth; eauto.
+  - intros pool body rt Hx [E|[]]. exfalso. eapply Hth; eauto.
+Qed.
+
+(* a 16-bit operand, then a constant *)
+Lemma CG_opmc o c n st st2 st' a b pops pushes :
+  cs_wf st -> emit16 n (emit_op o st) = COk st2 -> emit_const c st2 = COk st' ->
+  operands o = [Om; Oc] -> is_ctl o = false ->
+  (forall pool v, nth_error pool (N.to_nat v) = Some c ->
+                  effect pool (mkDec o (Some v) (Some n) None None 5) = Some (pops, pushes)) ->
+  pops <= a -> b = a - pops + pushes -> (forall body rt, c <> CThunk body rt) ->
+  CG true a b st st'.
+Proof.
+  intros W H H2 Hops Hctl Heff Hp Hb Hth.
+  apply emit16_spec in H as [E2 V2]. subst st2.
+  assert (W2 : cs_wf (emit_byte (n mod 256) (emit_byte (n / 256) (emit_op o st)))) by (repeat apply wf_emit_byte; auto).
+  destruct (emit_const_spec _ _ _ W2 H2) as (hi & lo & C & P & W' & Hn).
+  unfold emit_op in C, P. rewrite !code_emit_byte in C. rewrite !pool_emit_byte in P. rewrite <- !app_assoc in C.
+  eapply CG_ins with (ins := [op_byte o; (n / 256)%N; (n mod 256)%N; hi; lo]) (newp := [c]); try discriminate; auto.
+  - intros pool Hx.
+    eapply FR_shape with (dec := mkDec o (Some (hi * 256 + lo)%N) (Some (n / 256 * 256 + n mod 256)%N) None None 5); eauto.
+    + intros k. rewrite Hops. reflexivity.
+    + rewrite V2. apply Heff. eapply pool_ext_nth; eauto.
+  - intros pool body rt Hx [E|[]]. exfalso. eapply Hth; eauto.
+Qed.
+
+(* a constant, then an 8-bit operand *)
+Lemma CG_opcb o c n st st2 st' a b pops pushes :
+  cs_wf st -> emit_const c (emit_op o st) = COk st2 -> emit8 n st2 = COk st' ->
+  operands o = [Oc; Ob] -> is_ctl o = false ->
+  (forall pool v, nth_error pool (N.to_nat v) = Some c ->
+                  effect pool (mkDec o (Some v) None None (Some n) 4) = Some (pops, pushes)) ->
+  pops <= a -> b = a - pops + pushes -> (forall body rt, c <> CThunk body rt) ->
+  CG true a b st st'.
+Proof.
+  intros W H H2 Hops Hctl Heff Hp Hb Hth.
+  destruct (emit_const_spec _ _ _ (wf_emit_byte _ _ W) H) as (hi & lo & C & P & W' & Hn).
+  unfold emit_op in C, P. rewrite code_emit_byte in C. rewrite pool_emit_byte in P. rewrite <- app_assoc in C.
+  apply emit8_spec in H2. subst st'.
+  eapply CG_ins with (ins := [op_byte o; hi; lo; n]) (newp := [c]); try discriminate.
+  - apply wf_emit_byte; auto.
+  - rewrite !code_emit_byte, C, <- !app_assoc. reflexivity.
+  - rewrite !pool_emit_byte. exact P.
+  - intros pool Hx.
+    eapply FR_shape with (dec := mkDec o (Some (hi * 256 + lo)%N) None None (Some n) 4); eauto.
+    + intros k. rewrite Hops. reflexivity.
+    + apply Heff. rewrite !pool_emit_byte in Hx. eapply pool_ext_nth; eauto.
+  - intros pool body rt Hx [E|[]]. exfalso. eapply Hth; eauto.
+Qed.
+
+(* an 8-bit operand only *)
+Lemma CG_opb o n st st' a b pops pushes :
+  cs_wf st -> emit8 n (emit_op o st) = COk st' ->
+  operands o = [Ob] -> is_ctl o = false ->
+  (forall pool, effect pool (mkDec o None None None (Some n) 2) = Some (pops, pushes)) ->
+  pops <= a -> b = a - pops + pushes ->
+  CG true a b st st'.
+Proof.
+  intros W H2 Hops Hctl Heff Hp Hb.
+  apply emit8_spec in H2. subst st'.
+  eapply CG_ins with (ins := [op_byte o; n]) (newp := []); try discriminate.
+  - apply wf_emit_byte, wf_emit_byte; auto.
+  - unfold emit_op. rewrite !code_emit_byte, <- !app_assoc. reflexivity.
+  - unfold emit_op. rewrite !pool_emit_byte, app_nil_r. reflexivity.
+  - intros pool Hx.
+    eapply FR_shape with (dec := mkDec o None None None (Some n) 2); eauto.
+    intros k. rewrite Hops. reflexivity.
+  - intros pool body rt Hx [].
+Qed.
+
 (* ---- the table of strict intrinsics ---- *)
 Definition seffect (o : opcode) : option (nat * nat) := effect [] (mkDec o None None None None 1).
 Lemma seffect_eq pool o : operands o = [] -> effect pool (mkDec o None None None None 1) = seffect o.
@@ -1800,4 +1890,160 @@ Proof.
     apply in_app_or in Hin as [Hin|Hin]; eauto.
 Qed.
 
+
+Lemma const_val_CG v st st' : cs_wf st -> emit_const (CVal v) (emit_op OP_CONST st) = COk st' -> CG true 0 1 st st'.
+Proof.
+  intros W H. eapply (CG_opc OP_CONST _ st st' 0 1 0 1); eauto; try reflexivity.
+  - intros pool i Hn. cbn [effect d_op d_const]. rewrite Hn. reflexivity.
+  - intros pool body rt _ E. discriminate E.
+Qed.
+
+Lemma Nat2N_len (n : nat) : N.to_nat (N.of_nat n) = n.
+Proof. apply Nat2N.id. Qed.
+
+Theorem compile_CG : forall a, cstmt a.
+Proof.
+  apply aexpr_ind'; [intros v|intros t n|intros t|intros b|intros t es HF|intros t kvs HF|intros t fs HF|intros c n
+                    |intros c key idx fty callee args IHc HF|intros c vty v i IHv IHi|intros c oty idx o n IHo];
+    intros Wa st st' W H; rewrite compile_eq in H.
+  - eapply const_val_CG; eauto.
+  - eapply const_val_CG; eauto.
+  - eapply const_val_CG; eauto.
+  - eapply const_val_CG; eauto.
+  - (* list *)
+    inversion Wa as [| | | |? ? [el Et] Wes| | | | | |]; subst.
+    destruct (clist ops orc fe es st) as [st1| |] eqn:E1; cbn [cbind] in H; try discriminate.
+    pose proof (clist_CG es HF Wes _ _ 0 W E1) as G1.
+    match type of H with context [emit_const ?c ?s] => destruct (emit_const c s) as [st2| |] eqn:E2 end;
+      cbn [cbind] in H; try discriminate.
+    eapply CG_trans; [exact G1|].
+    eapply (CG_opcm OP_NEW_LIST _ _ st1 st2 st' (len es + 0) 1 (len es) 1); eauto using CG_wf; try reflexivity; try lia.
+    + intros pool v Hn. cbn [effect d_op d_const d_med]. rewrite Hn, Nat2N_len. reflexivity.
+    + intros body rt E. discriminate E.
+  - (* map *)
+    inversion Wa as [| | | | |? ? [kt [vt Et]] Wes| | | | |]; subst.
+    destruct (cmap ops orc fe kvs st) as [st1| |] eqn:E1; cbn [cbind] in H; try discriminate.
+    pose proof (cmap_CG kvs HF Wes _ _ 0 W E1) as G1.
+    match type of H with context [emit_const ?c ?s] => destruct (emit_const c s) as [st2| |] eqn:E2 end;
+      cbn [cbind] in H; try discriminate.
+    eapply CG_trans; [exact G1|].
+    eapply (CG_opcm OP_NEW_MAP _ _ st1 st2 st' (2 * len kvs + 0) 1 (2 * len kvs) 1); eauto using CG_wf; try reflexivity; try lia.
+    + intros pool v Hn. cbn [effect d_op d_const d_med]. rewrite Hn, Nat2N_len. reflexivity.
+    + intros body rt E. discriminate E.
+  - (* obj *)
+    inversion Wa as [| | | | | |? tfs ? Et El Wfs| | | |]; subst.
+    destruct (cobj ops orc fe fs st) as [st1| |] eqn:E1; cbn [cbind] in H; try discriminate.
+    pose proof (cobj_CG fs HF Wfs _ _ 0 W E1) as G1.
+    eapply CG_trans; [exact G1|].
+    eapply (CG_opc OP_NEW_OBJ _ st1 st' (len fs + 0) 1 (len fs) 1); eauto using CG_wf; try reflexivity; try lia.
+    + intros pool v Hn. cbn [effect d_op d_const]. rewrite Hn, El. reflexivity.
+    + intros pool body rt _ E. discriminate E.
+  - (* ident *)
+    eapply (CG_opc OP_LOAD _ st st' 0 1 0 1); eauto; try reflexivity.
+    + intros pool v Hn. cbn [effect d_op d_const]. rewrite Hn. reflexivity.
+    + intros pool body rt _ E. discriminate E.
+  - (* call *)
+    inversion Wa as [| | | | | | | |? ? ? ? ? ? Wc Wargs Har| |]; subst.
+    destruct (String.eqb key "") eqn:Ek.
+    + (* dynamic *)
+      destruct (cmp callee st) as [st1| |] eqn:E1; cbn [cbind] in H; try discriminate.
+      pose proof (IHc Wc _ _ W E1) as G1.
+      destruct (clist ops orc fe args st1) as [st2| |] eqn:E2; cbn [cbind] in H; try discriminate.
+      pose proof (clist_CG args HF Wargs _ _ 1 (CG_wf _ _ _ _ _ G1) E2) as G2.
+      assert (G12 : CG true 0 (len args + 1) st st2).
+      { destruct args; [cbn in E2; inversion E2; subst; exact G1|eapply CG_trans; eauto]. }
+      eapply CG_trans; [exact G12|].
+      eapply (CG_opb OP_DYNAMIC_CALL _ st2 st' (len args + 1) 1 (S (len args)) 1); eauto using CG_wf; try reflexivity; try lia.
+      intros pool. cbn [effect d_op d_b]. rewrite Nat2N_len. reflexivity.
+    + (* static *)
+      assert (Hk : key <> ""%string) by (intros E; subst; discriminate Ek).
+      destruct (lookup_fn fe key idx) as [sg|] eqn:El; [|discriminate].
+      specialize (Har Hk sg eq_refl).
+      destruct (intrinsic_cbn sg) as [bf|] eqn:Ecbn.
+      * destruct bf; try discriminate H.
+        all: repeat match type of H with (match ?l with _ => _ end) = _ => destruct l; try discriminate H end.
+        all: repeat match goal with HH : Forall _ (_ :: _) |- _ => inversion HH; clear HH; subst end.
+        all: try solve [eapply ccond_CG; [..|exact H]; cbn [bstmt]; auto].
+        (* not *)
+        match type of H with context [cmp ?x st] => destruct (cmp x st) as [st1| |] eqn:E1 end;
+          cbn [cbind] in H; try discriminate. inversion H; subst.
+        match goal with Hx : cstmt ?x, Wx : awf fe ?x |- _ => pose proof (Hx Wx _ _ W E1) as G1 end.
+        eapply CG_trans; [exact G1|].
+        eapply (CG_op0 OP_LOGICAL_NOT st1 1 1 1 1); eauto using CG_wf; try reflexivity; try lia.
+      * destruct (cargs ops orc fe sg args 0 st) as [st1| |] eqn:E1; cbn [cbind] in H; try discriminate.
+        pose proof (cargs_CG sg args HF Wargs _ _ _ 0 W E1) as G1.
+        destruct (intrinsic_cbv sg) as [o|] eqn:Ecbv.
+        -- inversion H; subst.
+           destruct (intrinsic_cbv_spec _ _ Ecbv) as (Hops & Hctl & pops & pushes & Hse & Hle & Hnet).
+           eapply CG_trans; [exact G1|].
+           eapply (CG_op0 o st1 (len args + 0) 1 pops pushes); eauto using CG_wf; try lia;
+             try (intros pool; rewrite seffect_eq; auto).
+        -- match type of H with context [emit_const ?c ?s] => destruct (emit_const c s) as [st2| |] eqn:E2 end;
+             cbn [cbind] in H; try discriminate.
+           eapply CG_trans; [exact G1|].
+           destruct (s_lazy sg) eqn:Elz.
+           ++ eapply (CG_opcb OP_CALL_BY_NEED _ _ st1 st2 st' (len args + 0) 1 (len args) 1); eauto using CG_wf; try reflexivity; try lia.
+              ** intros pool v Hn. cbn [effect d_op d_const d_b]. rewrite Hn, Nat2N_len, Har, Nat.eqb_refl, Elz. reflexivity.
+              ** intros body rt E. discriminate E.
+           ++ eapply (CG_opcb OP_CALL_BY_VALUE _ _ st1 st2 st' (len args + 0) 1 (len args) 1); eauto using CG_wf; try reflexivity; try lia.
+              ** intros pool v Hn. cbn [effect d_op d_const d_b]. rewrite Hn, Nat2N_len, Har, Nat.eqb_refl, Elz. reflexivity.
+              ** intros body rt E. discriminate E.
+  - (* sub *)
+    inversion Wa as [| | | | | | | | |? ? ? ? W1 W2|]; subst.
+    destruct (cmp v st) as [st1| |] eqn:E1; cbn [cbind] in H; try discriminate.
+    pose proof (IHv W1 _ _ W E1) as G1.
+    destruct (cmp i st1) as [st2| |] eqn:E2; cbn [cbind] in H; try discriminate.
+    pose proof (IHi W2 _ _ (CG_wf _ _ _ _ _ G1) E2) as G2.
+    assert (G12 : CG true 0 2 st st2) by (eapply CG_trans; [exact G1|apply (CG_frame true 0 1 1); exact G2]).
+    destruct (ty_is_list vty).
+    + inversion H; subst. eapply CG_trans; [exact G12|].
+      eapply (CG_op0 OP_LIST_LOAD st2 2 1 2 1); eauto using CG_wf; try reflexivity; lia.
+    + destruct (ty_is_map vty); [|discriminate]. inversion H; subst. eapply CG_trans; [exact G12|].
+      eapply (CG_op0 OP_MAP_LOAD st2 2 1 2 1); eauto using CG_wf; try reflexivity; lia.
+  - (* member *)
+    inversion Wa as [| | | | | | | | | |? ? ? ? ? W1]; subst.
+    destruct (cmp o st) as [st1| |] eqn:E1; cbn [cbind] in H; try discriminate.
+    pose proof (IHo W1 _ _ W E1) as G1.
+    match type of H with context [emit16 ?c ?s] => destruct (emit16 c s) as [st2| |] eqn:E2 end;
+      cbn [cbind] in H; try discriminate.
+    eapply CG_trans; [exact G1|].
+    eapply (CG_opmc OP_OBJ_LOAD _ _ st1 st2 st' 1 1 1 1); eauto using CG_wf; try reflexivity; try lia.
+    + intros pool v Hn. cbn [effect d_op d_const d_med]. rewrite Hn. reflexivity.
+    + intros body rt E. discriminate E.
+Qed.
+
 End Compiles.
+
+Lemma fenv_std_ok : fenv_ok fenv_std = true.
+Proof. vm_compute. reflexivity. Qed.
+
+Lemma compile_verifies : forall (ops : numops) (orc : oracles) fe G fuel fresh e a T code pool,
+  (fe = builtin_fenv \/ fe = fenv_std) ->
+  tenv_ok G = true -> fresh_ok fe fresh ->
+  check fe G fuel fresh e = COk (a, T) ->
+  compile_main ops orc fe a = COk (code, pool) ->
+  verify_all code pool = true.
+Proof.
+  intros ops orc fe G fuel fresh e a T code pool Hfe HG Hfr HC HM.
+  assert (Hok : fenv_ok fe = true) by (destruct Hfe; subst fe; [apply builtin_table_ok|apply fenv_std_ok]).
+  pose proof (check_awf fe G fuel fresh Hok HG Hfr e a T HC) as Wa.
+  unfold compile_main in HM.
+  destruct (compile ops orc fe a (cs_empty [] 0)) as [st| |] eqn:E; cbn [cbind] in HM; try discriminate.
+  inversion HM; subst code pool. clear HM.
+  assert (W0 : cs_wf (cs_empty [] 0)) by (split; reflexivity).
+  destruct (compile_CG ops orc fe a Wa _ _ W0 E) as (W & frag & newp & C & P & _ & HF).
+  change (code_of (cs_empty [] 0)) with (@nil N) in *. change (pool_of (cs_empty [] 0)) with (@nil const) in P.
+  cbn [app] in C, P.
+  change (rev (cs_rcode (emit_op OP_RETURN st))) with (code_of st ++ [op_byte OP_RETURN]).
+  change (rev (cs_rpool (emit_op OP_RETURN st))) with (pool_of st).
+  destruct (HF (pool_of st) (pool_ext_refl _)) as [F T'].
+  unfold verify_all. fold (code_of st). fold (pool_of st). apply andb_true_intro. split.
+  - rewrite C. apply verify_of_FR; [apply decode_op_byte|exact F].
+  - apply forallb_forall. intros c Hin. destruct c; auto. apply (T' code ret). rewrite <- P. exact Hin.
+Qed.
+
+Print Assumptions opcode_table.
+Print Assumptions emit16_roundtrip.
+Print Assumptions jumps_forward.
+Print Assumptions verified_safe.
+Print Assumptions compile_verifies.
